@@ -52,7 +52,7 @@ TruncPoints(a) ==
 Faults(a) ==
          { NoFault, Absent }
     \cup { Truncate(n) : n \in TruncPoints(a) }
-    \cup { CorruptLen(q[1], q[2]) : q \in { p \in (1..NE(a)) \X Deltas : p[2] # 0 /\ a.entries[p[1]].size + p[2] >= 0 } }
+    \cup { CorruptLen(q[1], q[2]) : q \in { p \in (1..NE(a)) \X Deltas : p[2] # 0 /\ a.entries[p[1]].size + p[2] >= -8 } }
 
 CaseJson(a, f) ==
     LET out == Read(a, f)
